@@ -847,6 +847,11 @@ mod tests {
 #[cfg(any(kani, mmtk_verif))]
 pub mod verif_hooks {
     use super::*;
+    pub use super::{
+        find_first_non_zero_bit_in_metadata_bits, find_first_non_zero_bit_in_metadata_bytes,
+        find_last_non_zero_bit_in_metadata_bits, find_last_non_zero_bit_in_metadata_bytes,
+        scan_non_zero_bits_in_metadata_bits, scan_non_zero_bits_in_metadata_bytes, FindMetaBitResult,
+    };
     pub fn address_to_contiguous_meta_address(s: &SideMetadataSpec, a: Address) -> Address {
         super::address_to_contiguous_meta_address(s, a)
     }
